@@ -325,6 +325,15 @@ def body_integer(cfg, darsia, shape, ch, full, dims, org):
     S.claim("integer_inputs_are_promoted_before_subtraction", S.eq(out.img, exp) if tuple(out.img.shape) == tuple(exp.shape) else False)
     S.claim("integer_probe_unmodified", bool(np.array_equal(P.img, probe)) and P.img.dtype == dt)
     S.observe("out", out.img)
+    # the SAME probe object carries the next frame (its array is refilled in place) and is analysed again
+    probe2 = rng.integers(0, hi + 1, size=full).astype(dt)
+    P.img[...] = probe2
+    out2 = an(P)
+    fp2 = skimage.img_as_float(probe2)
+    if S.instrumented():
+        fp2 = fp2.astype(object)
+    exp2 = _expected(cfg, fns, present, _diff(cfg["diff"], fp2, fb), F, cfg["order"])
+    S.claim("refilled_probe_object_is_analysed_with_its_current_data", S.eq(out2.img, exp2) if tuple(out2.img.shape) == tuple(exp2.shape) else False)
 
 
 def body_concrete(cfg, darsia, shape, ch, full, dims, org):
